@@ -218,19 +218,32 @@ Proof.
 Qed.
 
 Lemma digit_zero : digit_from_ascii r 48 = Some 0.
-Proof. unfold digit_from_ascii. cbn. destruct (Z.ltb_spec 0 r); [reflexivity | lia]. Qed.
+Proof. unfold digit_from_ascii. cbn. destruct (Z.ltb_spec 0 r) as [|Hc]; [reflexivity | clear - r_ge_2 Hc; lia]. Qed.
+
+Lemma strip_zeros_48 t : strip_zeros (48 :: t) = strip_zeros t.
+Proof. reflexivity. Qed.
+
+Lemma strip_zeros_other c t : c <> 48 -> strip_zeros (c :: t) = c :: t.
+Proof.
+  intros NE. destruct c as [|p|p]; try reflexivity.
+  repeat (destruct p as [p|p|]; try reflexivity). contradiction NE. reflexivity.
+Qed.
+
+Lemma pw_cons_zero u : pw r (48 :: u) = pw r u.
+Proof.
+  unfold pw. change (raw_digits r (48 :: u)) with
+    (match digit_from_ascii r 48, raw_digits r u with Some d, Some ds => Some (d :: ds) | _, _ => None end).
+  rewrite digit_zero. destruct (raw_digits r u) as [ds|]; [|reflexivity].
+  rewrite (value_cons r), Z.mul_0_l, Z.add_0_l. reflexivity.
+Qed.
 
 Lemma pw_strip_zeros s : pw r (filter nonus (strip_zeros s)) = pw r (filter nonus s).
 Proof.
-  induction s as [|c t IH]; [reflexivity|]. cbn [strip_zeros].
+  induction s as [|c t IH]; [reflexivity|].
   destruct (Z.eq_dec c 48) as [->|NE].
-  - rewrite IH. cbn [filter nonus]. change (negb (48 =? 95)) with true. cbn iota.
-    unfold pw. cbn [raw_digits]. rewrite digit_zero. destruct (raw_digits r (filter nonus t)) as [ds|]; [|reflexivity].
-    rewrite (value_cons r). f_equal. lia.
-  - assert (strip_zeros_ne : forall t', match c with 48 => strip_zeros t' | _ => c :: t' end = c :: t').
-    { intros t'. destruct c as [|p|p]; try reflexivity.
-      repeat (destruct p as [p|p|]; try reflexivity). contradiction NE. reflexivity. }
-    rewrite strip_zeros_ne. reflexivity.
+  - rewrite strip_zeros_48, IH.
+    change (filter nonus (48 :: t)) with (48 :: filter nonus t). symmetry. apply pw_cons_zero.
+  - rewrite strip_zeros_other by exact NE. reflexivity.
 Qed.
 
 Lemma all_us_filter s : forallb (fun c => c =? 95) s = true -> filter nonus s = [].
